@@ -192,7 +192,7 @@ func genMsize(rt *rapid.T) uint32 {
 
 type cverCase struct {
 	ClientMsize uint32 `json:"client_msize"`
-	Reply       string `json:"reply"`        // "rversion" | "rlerror"
+	Reply       string `json:"reply"`         // "rversion" | "rlerror"
 	OfferVer    []byte `json:"offer_version"` // for rversion
 	OfferMsize  uint32 `json:"offer_msize"`
 	Errno       uint32 `json:"errno"` // for rlerror
